@@ -93,7 +93,7 @@ Lemma rw_other_shape ce st cls atoms cs :
   match lam_parts cls cs with
   | Some (acls, aatoms, akids, b, lv) =>
       same (sbind (rw_list (fun k => if is_argnode k then Ok (k, k) else rw ce st k) akids) (fun akids' =>
-            sbind (rw ce (lv_params lv :: st) b) (fun pb => Ok (Other cls atoms [Other acls aatoms akids'; fst pb]))))
+            sbind (rw ce ((lv_params lv ++ assigned b) :: st) b) (fun pb => Ok (Other cls atoms [Other acls aatoms akids'; fst pb]))))
   | None => same (sbind (rw_list (rw ce st) cs) (fun cs' => Ok (Other cls atoms cs')))
   end.
 Proof.
@@ -127,7 +127,7 @@ Lemma res_call_other_shape st cls atoms cs args kwn kwv :
   let stays := Call (res st (Other cls atoms cs)) (map (res st) args) kwn (map (res st) kwv) in
   match lam_parts cls cs, kwn with
   | Some (_, _, _, b, lv), [] =>
-      if lv_simple lv && Nat.eqb (length (lv_args lv)) (length args) && negb (existsb is_starred args)
+      if lv_simple lv && Nat.eqb (length (lv_args lv)) (length args) && negb (existsb is_starred args || has_walrus b)
       then if overlaps (flat_map names_in (map (res st) args)) (inner_binders b) then stays
            else res (combine (lv_args lv) (map (@Some expr) (map (res st) args)) :: st) b
       else stays
@@ -186,7 +186,7 @@ Proof.
     rewrite (scope_list args st ce1 ce2 (scope_Q_P _ H) Hag), (scope_list kwv st ce1 ce2 (scope_Q_P _ H0) Hag).
     reflexivity.
   - (* Lambda *)
-    rewrite (proj1 IHe (ps :: st) ce1 ce2 (agree_off_cons _ _ _ _ Hag)). reflexivity.
+    rewrite (proj1 IHe ((ps ++ assigned e) :: st) ce1 ce2 (agree_off_cons _ _ _ _ Hag)). reflexivity.
   - rewrite (proj1 IHe st ce1 ce2 Hag). reflexivity.
   - rewrite (proj1 IHe1 st ce1 ce2 Hag), (proj1 IHe2 st ce1 ce2 Hag). reflexivity.
   - rewrite (scope_list es st ce1 ce2 (scope_Q_P _ H) Hag). reflexivity.
@@ -231,7 +231,7 @@ Proof.
     destruct (lam_view acls akids) as [lv|]; [|rewrite (scope_list _ st ce1 ce2 (scope_Q_P _ H) Hag); reflexivity].
     inversion H as [|? ? Ha0 Hr]; subst. inversion Hr as [|? ? Hb0 _]; subst.
     destruct Ha0 as [_ Hkids].
-    rewrite (proj1 Hb0 (lv_params lv :: st) ce1 ce2 (agree_off_cons _ _ _ _ Hag)).
+    rewrite (proj1 Hb0 ((lv_params lv ++ assigned b) :: st) ce1 ce2 (agree_off_cons _ _ _ _ Hag)).
     rewrite (rw_list_ext (fun k => if is_argnode k then Ok (k, k) else rw ce1 st k)
                          (fun k => if is_argnode k then Ok (k, k) else rw ce2 st k) akids); [reflexivity|].
     eapply Forall_impl; [|exact Hkids]. intros a Ha. cbv beta. destruct (is_argnode a); [reflexivity | apply Ha; exact Hag].
@@ -278,15 +278,34 @@ Qed.
 Lemma rw_bound_name ce st x : is_arg st x = true -> rw ce st (Name x) = Ok (Name x, Name x).
 Proof. intros H. cbn [rw]. rewrite H. reflexivity. Qed.
 
+(* F42: the names a lambda binds - its parameters and the targets of the assignment expressions in its body *)
 Lemma rw_lambda_pushes ce st ps b :
-  rw ce st (Lambda ps b) = same (sbind (rw ce (ps :: st) b) (fun p => Ok (Lambda ps (fst p)))).
+  rw ce st (Lambda ps b) = same (sbind (rw ce ((ps ++ assigned b) :: st) b) (fun p => Ok (Lambda ps (fst p)))).
 Proof. reflexivity. Qed.
 
-(* the passed lambda: its parameters' captured values never matter *)
+(* the passed lambda: the captured values of its parameters AND of the names it assigns with `:=` never matter *)
+Theorem lambda_bound_never_replaced ce ps b :
+  rewrite_captured ce (Lambda ps b) = rewrite_captured (erase (ps ++ assigned b) ce) (Lambda ps b).
+Proof.
+  unfold rewrite_captured. rewrite !rw_lambda_pushes. rewrite (rw_stack_is_erasure ce (ps ++ assigned b) [] b). reflexivity.
+Qed.
+
 Theorem lambda_params_never_replaced ce ps b :
   rewrite_captured ce (Lambda ps b) = rewrite_captured (erase ps ce) (Lambda ps b).
 Proof.
-  unfold rewrite_captured. rewrite !rw_lambda_pushes. rewrite (rw_stack_is_erasure ce ps [] b). reflexivity.
+  unfold rewrite_captured. rewrite !rw_lambda_pushes.
+  rewrite (rw_scope b [ps ++ assigned b] ce (erase ps ce)); [reflexivity|].
+  split; [|reflexivity]. intros x Hx. rewrite lookup_erase.
+  cbn [is_arg existsb] in Hx. rewrite orb_false_r, existsb_app in Hx. apply orb_false_iff in Hx. destruct Hx as [Hx _].
+  unfold mem. rewrite Hx. reflexivity.
+Qed.
+
+(* an assigned name that is also captured stays a name, target and uses alike *)
+Theorem rw_assigned_name_kept st ps b x :
+  In x (assigned b) -> is_arg ((ps ++ assigned b) :: st) x = true.
+Proof.
+  intros H. rewrite is_arg_cons, existsb_app. apply orb_true_iff; left. apply orb_true_iff; right.
+  apply existsb_exists. exists x. split; [exact H | apply String.eqb_refl].
 Qed.
 
 (* ---------- calls of callables that cannot be inlined stay calls by name ---------- *)
@@ -372,6 +391,17 @@ Proof.
   cbn [res]. destruct kwn; [|reflexivity]. destruct (Nat.eqb (length ps) (length args)); [rewrite H|]; reflexivity.
 Qed.
 
+(* F48: so does a called lambda whose body contains an assignment expression - the name it binds is local to that lambda,
+   moving the body out of it would change what the name means (or put the argument in the place of the target) *)
+Theorem res_walrus_call_stays st ps b args kwn kwv :
+  has_walrus b = true ->
+  res st (Call (Lambda ps b) args kwn kwv) =
+  Call (Lambda ps (res (shadow ps :: st) b)) (map (res st) args) kwn (map (res st) kwv).
+Proof.
+  intros H. cbn [res]. destruct kwn; [|reflexivity].
+  destruct (Nat.eqb (length ps) (length args)); [rewrite H, orb_true_r|]; reflexivity.
+Qed.
+
 (* the same for a called lambda that has default values / other parameter kinds *)
 Theorem res_starred_call_stays_defaults st cls atoms cs args kwn kwv :
   existsb is_starred args = true ->
@@ -382,7 +412,7 @@ Proof.
   destruct cs as [|a0 [|b0 [|c0 cs]]]; try reflexivity;
     (destruct a0 as [| | | | | | | | | | | | | | | | | |acls0 aatoms0 akids0]; try reflexivity).
   destruct (lam_view acls0 akids0); [|reflexivity]. destruct kwn; [|reflexivity].
-  rewrite H. cbn [negb]. rewrite !andb_false_r. reflexivity.
+  rewrite H. cbn [negb orb]. rewrite !andb_false_r. reflexivity.
 Qed.
 
 (* [inner_binders] agrees: such a call is not "certainly inlined", its parameters count as binders that stay *)
@@ -390,7 +420,7 @@ Lemma inner_binders_starred_call ps b args kwv :
   existsb is_starred args = true ->
   incl ps (inner_binders (Call (Lambda ps b) args [] kwv)).
 Proof.
-  intros H z Hz. cbn [inner_binders]. rewrite H. cbn [negb]. rewrite andb_false_r.
+  intros H z Hz. cbn [inner_binders]. rewrite H. cbn [negb orb]. rewrite andb_false_r.
   destruct (inner_binders b); apply in_or_app; left; exact Hz.
 Qed.
 
@@ -400,10 +430,10 @@ Definition res_inlined (st : list amap) (ps : list string) (b : expr) (args : li
 
 (* without a starred argument (and without keywords, matching count, no clash) that is still what happens *)
 Lemma res_plain_call_inlined st ps b args kwv :
-  length ps = length args -> existsb is_starred args = false ->
+  length ps = length args -> existsb is_starred args = false -> has_walrus b = false ->
   overlaps (flat_map names_in (map (res st) args)) (inner_binders b) = false ->
   res st (Call (Lambda ps b) args [] kwv) = res_inlined st ps b args.
-Proof. intros Hl Hs Ho. cbn [res]. rewrite Hl, Nat.eqb_refl, Hs, Ho. reflexivity. Qed.
+Proof. intros Hl Hs Hw Ho. cbn [res]. rewrite Hl, Nat.eqb_refl, Hs, Hw, Ho. reflexivity. Qed.
 
 (* ---------- F31 / FC8: default values of a lambda that stays belong to the enclosing scope ---------- *)
 
@@ -441,7 +471,7 @@ Theorem rw_lambda_defaults_outer ce st cls atoms cs acls aatoms akids b lv :
   lam_parts cls cs = Some (acls, aatoms, akids, b, lv) ->
   rw ce st (Other cls atoms cs) =
   same (sbind (rw_list (fun k => if is_argnode k then Ok (k, k) else rw ce st k) akids) (fun akids' =>
-        sbind (rw ce (lv_params lv :: st) b) (fun pb => Ok (Other cls atoms [Other acls aatoms akids'; fst pb])))).
+        sbind (rw ce ((lv_params lv ++ assigned b) :: st) b) (fun pb => Ok (Other cls atoms [Other acls aatoms akids'; fst pb])))).
 Proof.
   intros H. destruct (lam_parts_inv _ _ _ _ _ _ _ H) as (Hp & _ & _). destruct (prefix_lambda_excl _ Hp) as [E1 E2].
   rewrite (rw_other_shape ce st cls atoms cs E1 E2), H. reflexivity.
@@ -471,10 +501,11 @@ Theorem res_call_stays_on_any_binder st ps cls atoms cs acls aatoms akids b lv a
   Call (Lambda ps (res (shadow ps :: st) (Other cls atoms cs))) (map (res st) args) [] [].
 Proof.
   intros H Hl Hs Hz Hu.
+  destruct (has_walrus (Other cls atoms cs)) eqn:Hw; [exact (res_walrus_call_stays st ps _ args [] [] Hw)|].
   assert (Ho : overlaps (flat_map names_in (map (res st) args)) (inner_binders (Other cls atoms cs)) = true).
   { unfold overlaps. apply existsb_exists. exists z. split; [exact Hu|]. apply existsb_exists. exists z.
     split; [eapply inner_binders_all_params; eauto | apply String.eqb_refl]. }
-  cbn [res]. rewrite Hl, Nat.eqb_refl, Hs, Ho. reflexivity.
+  cbn [res]. rewrite Hl, Nat.eqb_refl, Hs, Hw, Ho. reflexivity.
 Qed.
 
 (* the binder set before cb95368 (F32): the plain positional parameters only *)
@@ -511,4 +542,32 @@ Theorem walrus_helper_call_stays_by_name ce hce l h args kwn kwv e' :
   exists args' kwv', e' = Call (Name h) args' kwn kwv' /\ length args' = length args /\ length kwv' = length kwv.
 Proof.
   intros Hl Hw. apply call_stays_by_name. left. rewrite Hl, (helper_with_walrus_by_name hce l Hw). reflexivity.
+Qed.
+
+(* ---------- F42: no assignment expression, nothing assigned ---------- *)
+
+Lemma flat_assigned_nil l :
+  Forall (fun e => has_walrus e = false -> assigned e = []) l -> existsb has_walrus l = false -> flat_map assigned l = [].
+Proof.
+  induction 1 as [|c l Hc _ IH]; intros H; [reflexivity|]. cbn [existsb flat_map] in *.
+  apply orb_false_iff in H. destruct H as [H1 H2]. rewrite (Hc H1), (IH H2). reflexivity.
+Qed.
+
+Lemma no_walrus_no_assigned : forall e, has_walrus e = false -> assigned e = [].
+Proof.
+  induction e using expr_ind'; cbn [has_walrus assigned]; intros Hw; try reflexivity;
+    repeat match goal with
+           | H : _ || _ = false |- _ => apply orb_false_iff in H; destruct H
+           end;
+    try (lazymatch goal with |- context [String.prefix] => fail | _ => idtac end;
+         repeat match goal with
+                | IH : has_walrus ?x = false -> assigned ?x = [], H : has_walrus ?x = false |- _ => rewrite (IH H); clear IH
+                | HF : Forall _ ?l, H : existsb has_walrus ?l = false |- _ => rewrite (flat_assigned_nil l HF H); clear HF
+                end;
+         reflexivity).
+  (* Other *)
+  rewrite H0. cbn [app].
+  destruct (String.prefix "Lambda;" cls); [|apply flat_assigned_nil; assumption].
+  destruct cs as [|a cs]; [reflexivity|]. inversion H as [|? ? Ha _]; subst.
+  cbn [existsb] in H1. apply orb_false_iff in H1. destruct H1 as [H1 _]. exact (Ha H1).
 Qed.
